@@ -1,4 +1,5 @@
 import Mhd.Model.ConnMem
+import Mhd.Model.NoSpace
 import Driver.Common
 open Mhd.ConnMem Mhd.Pool Driver
 
@@ -48,6 +49,16 @@ def stepLine (c : CM) (ws : List String) : CM × List String :=
   | ["reset"] => doOp c .resetConn
   | ["errrelease"] => doOp c .errRelease
   | ["errreset"] => doOp c .errReset
+  | ["nospace", stage, addSize, addKind, optHdr, hostVal, uri, mOther, mLen] =>
+    match stage.toNat?, addSize.toNat?, addKind.toNat?, optHdr.toNat?, uri.toNat?, mOther.toNat?, mLen.toNat? with
+    | some st, some a, some k, some o, some u, some mo, some ml =>
+      let hv : Option (Option Nat) := if hostVal == "-" then some none else hostVal.toNat?.map some
+      match hv with
+      | some hv' =>
+        let kind : Mhd.NoSpace.AddKind := if a = 0 then .none else if k = 1 then .hostUnparsed else if k = 2 then .hostParsed else .other
+        (c, [s!"status={Mhd.NoSpace.status { stage := st, addSize := a, addKind := kind, optHdr := o, hostVal := hv', uri := u, methodOther := mo != 0, methodLen := ml }}"])
+      | none => (c, ["bad-op"])
+    | _, _, _, _, _, _, _ => (c, ["bad-op"])
   | _ => (c, ["bad-op"])
 
 def main : IO Unit := runEngine (init 64 64 16) stepLine
